@@ -31,6 +31,7 @@ def run(tier, seed):
         sc["free_tail"] = False
         # soundness error of one run must be negligible: at least 40 bits from queries, quadratic extension for 62/64-bit fields
         sc["corruptions"] = rec["corruptions"]
+        sc["aux_corruptions"] = rec.get("auxcorruptions", [])
         scs.append(sc)
     obs = c01.run_scenarios(exe_rel, "sound", scs, wd, "sound_rel", timeout=3400)
     n_cells = n_viol = n_free = n_pert = skipped = 0
@@ -45,25 +46,27 @@ def run(tier, seed):
             if cell["ref_valid"] == cell["violated"]:
                 raise vlib.ToolError("rule mismatch: Violated(%d,%d)=%s but reference validity=%s (%s)" % (
                     cell["c"], cell["i"], cell["violated"], cell["ref_valid"], ctx))
-            rp = dict(sc, corruptions=[{"c": cell["c"], "i": cell["i"], "violated": cell["violated"]}])
+            one = [{"c": cell["c"], "i": cell["i"], "violated": cell["violated"]}]
+            rp = dict(sc, corruptions=[], aux_corruptions=one) if cell.get("aux") else dict(sc, corruptions=one, aux_corruptions=[])
+            seg = "auxiliary column" if cell.get("aux") else "column"
             if cell["violated"]:
                 n_viol += 1
                 if cell["prove"] == "ok" and cell["verify"] == "ok":
                     if lowsec:
                         skipped += 1   # too few queries for a meaningful soundness bound: outside the < 2^-20 budget
                         continue
-                    v.violation("sound/accepted-invalid/%s" % ("asserted" if cell["i"] > sc["shape"]["n"] - sc["shape"]["exempt"] else "transition"),
-                                "a proof of a trace whose cell (column %d, step %d) violates a constraint is ACCEPTED (%s)" % (cell["c"], cell["i"], ctx), rp)
+                    v.violation("sound/accepted-invalid/%s%s" % ("aux-" if cell.get("aux") else "", "asserted" if cell["i"] > sc["shape"]["n"] - sc["shape"]["exempt"] else "transition"),
+                                "a proof of a trace whose cell (%s %d, step %d) violates a constraint is ACCEPTED (%s)" % (seg, cell["c"], cell["i"], ctx), rp)
             else:
                 n_free += 1
                 if cell["prove"] != "ok":
                     v.violation("sound/valid-trace-not-proved/%s" % cell["prove"].split(":")[0],
-                                "changing the unconstrained cell (column %d, step %d) leaves the trace valid, but proving fails: %s (%s)" % (
-                                    cell["c"], cell["i"], cell["prove"], ctx), rp)
+                                "changing the unconstrained cell (%s %d, step %d) leaves the trace valid, but proving fails: %s (%s)" % (
+                                    seg, cell["c"], cell["i"], cell["prove"], ctx), rp)
                 elif cell["verify"] != "ok":
                     v.violation("sound/valid-trace-rejected",
-                                "changing the unconstrained cell (column %d, step %d) leaves the trace valid, but the proof is rejected: %s (%s)" % (
-                                    cell["c"], cell["i"], cell["verify"], ctx), rp)
+                                "changing the unconstrained cell (%s %d, step %d) leaves the trace valid, but the proof is rejected: %s (%s)" % (
+                                    seg, cell["c"], cell["i"], cell["verify"], ctx), rp)
         if o.get("honest_prove") or o.get("honest_verify") != "ok":
             v.violation("sound/honest-failed", "honest proof not produced/accepted in the soundness run: %s %s (%s)" % (
                 o.get("honest_prove"), o.get("honest_verify"), ctx), sc)
